@@ -735,8 +735,8 @@ Proof. exact compose_inhabited. Qed.
    trims the input); set_query - no '#', and no such ending when the URL has no fragment; set_port - none;
    set_password - non-empty, no TAB/LF/CR, '@', '/', '?', '#' ('\' for special schemes); set_username - the same and no ':'.
    The bound nlen (ser u') <= U32_MAX_P is the parser's own u32 check.
-   NOT covered: set_path, set_host (state-level agreement only: C06_parser_agreement_set_path / _set_host), removal calls
-   (argument None / empty password), file URLs. *)
+   set_path and set_host(Some) are section 19, the removal calls (argument None / empty password) sections 22 and 24.
+   NOT covered: file URLs. *)
 From RU Require Import Proofs.C02_Canon Proofs.C06_Splice Proofs.C06_SpliceAuth Proofs.C06_SpliceCred Proofs.C06_SpliceEx.
 
 Theorem C06_splice_agreement_set_fragment : forall dbg hp hpo hd u x u', HostRT hp hpo hd -> Canon hp hpo hd u ->
@@ -956,7 +956,8 @@ Print Assumptions C06_wfh_canon.
        and - for arguments in the exact classes of sections 18 and 19 - Parser::parse_url on the old serialization with
        the raw argument spliced in returns exactly the setter's record.
    NOT in the assembly: removal calls (None / empty arguments; frame, get and couplings are in C06_frame / C06_get /
-   C06_couple for every wfh record, the canonical result in C02's set_*_Canon), set_scheme (no splice), set_ip_host,
+   C06_couple for every wfh record, the canonical result in C02's set_*_Canon, parser agreement in sections 22 and 24 -
+   all for every canonical record, hence for every record of a ReachC6 history), set_scheme (no splice), set_ip_host,
    path_segments_mut sessions (frame: C06_frame_path), the authority-less layouts for set_path / set_host, file URLs,
    joins of non-tail references. *)
 Definition C06_all_statement : Prop := forall dbg hp hpo hd u, HostRT hp hpo hd -> host_above hp hpo hd ->
@@ -1047,7 +1048,8 @@ Proof. split; [exact (proj1 ex_host_RT)|]. split; [exact (proj2 ex_host_RT) | ex
    setter's record.  Premise for the first two: the cut text does not end in a C0 control or space - this leaves out
    exactly the documented coupling "removing the last of query / fragment from an opaque path strips its trailing
    spaces" (C06_frame states it; Url::parse would trim them from its input too).  set_port(None): no premise.
-   NOT covered: set_password(None / ""), set_host(None) (C06_couple / C06_frame state their frame and couplings). *)
+   set_password(None / "") is section 24.  NOT covered: set_host(None) (C06_couple / C06_frame state its frame and
+   couplings; its excluded classes F-C06-5 / F-C02-2 are real defects). *)
 From RU Require Import Proofs.C06_SpliceNone.
 
 Theorem C06_splice_agreement_remove_fragment : forall dbg hp hpo hd u u', HostRT hp hpo hd -> Canon hp hpo hd u ->
